@@ -96,8 +96,10 @@ TStep ==
                  \* e.n = worker threads that were not inside queue.get when the stop flag had been set and
                  \* the calling thread blocked: a worker waiting in get re-checks the flag after it returns,
                  \* so only the others can still be committed to a call
-                 InterruptEB(Min(W - Cardinality(Occupied),
-                                 IF e.n > Cardinality(Occupied) THEN e.n - Cardinality(Occupied) ELSE 0)) /\ Note(<< <<"interrupt_once", ~intr>> >>) /\ UNCHANGED <<lastx, pend>>
+                 \* (a call whose failure the monitor has not registered yet - it does so at the latest possible
+                 \* moment - does not occupy its worker for certain: that worker may have moved on long ago)
+                 LET busy == Cardinality({c \in Calls : st[c] \in {"run", "between"}}) IN
+                 InterruptEB(Min(W - busy, IF e.n > busy THEN e.n - busy ELSE 0)) /\ Note(<< <<"interrupt_once", ~intr>> >>) /\ UNCHANGED <<lastx, pend>>
             [] e.e = "return" ->
                  ReturnE /\ Note(ReturnG) /\ UNCHANGED <<lastx, pend>>
             [] e.e = "raise" ->
